@@ -3,6 +3,7 @@
 //! case:  <BDD program without new_var / compose / cond_model> H <target> <neg 0|1> <cnf 0|1>
 //!        <order1: var_to_pos * nvars> <order2: var_to_pos * nvars> VT <vtree>
 //!        Q <split> <k> (<pool index> <neg 0|1>)*k  W (<lo_v> <hi_v>)*nvars  for each of the 3 primes
+//!        [SV <vtree>]      (optional second random vtree for the SDD half of the correspondence)
 //!   vtree ::= L <var> | N <vtree> <vtree>.   cnf = 1: the program has the shape literals, one
 //!   or_lst per clause, one final and_lst, and the harness additionally compiles the CNF.
 //!   The weights are the real ones (create_semantic_hash_map, ChaCha8-seeded), printed into the
@@ -15,6 +16,14 @@
 //!   mis=<per prime i: cached hash of the target asked with prime i+1 on the node caches left by prime i>
 //!   sem=<cached hash in U64_LARGEST of every pool entry of the SemanticSddBuilder> (or - when the
 //!        program uses xor/iff/ite, which are todo!() there)
+//!   SDD half (compared with the Coq SDD builder model of C03 run on the same program under the same
+//!   vtrees and hashed by Model/SddSemHash.v; groups separated by | = the vtree of VT, then of SV;
+//!   one CompressionSddBuilder per vtree and prime):
+//!   sh=<per vtree: DDNNFPtr::semantic_hash of the target pointer in the 3 fields>
+//!   sn=<per vtree: the same for the negated pointer>
+//!   sc=<per vtree; per prime: SddPtr::cached_semantic_hash answers to the k queries, the first
+//!        `split` of them asked when only a prefix of the program has run on that builder>
+//!   sp=<per vtree: cached_semantic_hash in U64_LARGEST of every pool entry>
 //!
 //! oracle (independent of the model and of the code under test: truth tables by walking nodes,
 //! spec program on truth tables, own double-and-add modular arithmetic):
@@ -331,6 +340,9 @@ pub fn gen(rng: &mut Rng, idx: usize, n: usize, thorough: bool) -> String {
             s.push_str(&format!(" {l} {h}"));
         }
     }
+    // a second random vtree for the SDD half of the correspondence (the first is VT)
+    let labels2: Vec<u64> = rng.perm(nv).into_iter().map(|x| x as u64).collect();
+    s.push_str(&format!(" SV {}", vt_text(&vt_random(rng, &labels2))));
     s
 }
 
@@ -505,6 +517,75 @@ fn sdd_rep<const P: u128>(name: &str, vt: VTree, prog: &Prog, prefix: usize, tar
     }
 }
 
+/// SDD half of the correspondence: one CompressionSddBuilder under one explicit vtree, one prime.
+/// Returns (hash of the target, hash of its negation, cached answers to the queries, cached hash
+/// of every pool entry); every value is also checked against the defining sum of the spec table.
+#[allow(clippy::too_many_arguments)]
+fn sdd_corr<const P: u128>(name: &str, vt: &VT, prog: &Prog, queries: &[(usize, bool)], split: usize, prefix: usize, target: usize, neg: bool, spec: &[TT], cx: &mut Ctx, st: &mut Stats) -> (u128, u128, Vec<u128>, Vec<u128>) {
+    let nv = cx.nv;
+    let b = CompressionSddBuilder::new(vt_rsdd(vt));
+    let map = create_semantic_hash_map::<P>(nv);
+    let w = cx.w[Ctx::pidx(P)].clone();
+    let mut memo = HashMap::new();
+    let mut sc = vec![];
+    let pre = exec_sdd(&b, prog, prefix);
+    let mut asked: Vec<(SddPtr, TT, String)> = vec![];
+    for (i, ng) in &queries[..split] {
+        let q = if *ng { pre[*i].neg() } else { pre[*i] };
+        asked.push((q, if *ng { !spec[*i] } else { spec[*i] } & full(nv), format!("query on prefix pool entry {i}{}", if *ng { " (negated)" } else { "" })));
+    }
+    let check = |q: SddPtr, t: TT, what: &str, cx: &mut Ctx, memo: &mut HashMap<(u8, usize), TT>| -> u128 {
+        let tq = tt_sdd(q, memo) & full(nv);
+        if tq != t {
+            cx.fails.push(format!("SDD-corr[{name}] {what} denotes table {tq:x}, the program says {t:x}"));
+        }
+        let h = q.cached_semantic_hash(b.vtree_manager(), &map).value();
+        let want = defining_sum(t, nv, &w, P);
+        if h != want {
+            cx.fails.push(format!("SDD-corr[{name}] {what}: cached hash {h} in field {P} but the sum over the models is {want}"));
+        }
+        let re = q.semantic_hash(&map).value();
+        if re != want {
+            cx.fails.push(format!("SDD-corr[{name}] {what}: semantic_hash {re} in field {P} but the sum over the models is {want}"));
+        }
+        h
+    };
+    for (q, t, what) in &asked {
+        sc.push(check(*q, *t, what, cx, &mut memo));
+    }
+    let pool = exec_sdd(&b, prog, prog.ops.len());
+    for (i, ng) in &queries[split..] {
+        let q = if *ng { pool[*i].neg() } else { pool[*i] };
+        let t = if *ng { !spec[*i] } else { spec[*i] } & full(nv);
+        sc.push(check(q, t, &format!("query on pool entry {i}{}", if *ng { " (negated)" } else { "" }), cx, &mut memo));
+    }
+    let tp = if neg { pool[target].neg() } else { pool[target] };
+    let tt = if neg { !spec[target] } else { spec[target] } & full(nv);
+    let want = defining_sum(tt, nv, &w, P);
+    let sh = tp.semantic_hash(&map).value();
+    if sh != want {
+        cx.fails.push(format!("SDD-corr[{name}] target: semantic_hash {sh} in field {P} but the sum over the models is {want}"));
+    }
+    let sn = tp.neg().semantic_hash(&map).value();
+    if sn != one_minus(want, P) {
+        cx.fails.push(format!("SDD-corr[{name}] target: the negation hashes to {sn} in field {P}, expected 1 - {want} = {}", one_minus(want, P)));
+    }
+    let mut sp = vec![];
+    for (i, q) in pool.iter().enumerate() {
+        sp.push(check(*q, spec[i] & full(nv), &format!("pool entry {i}"), cx, &mut memo));
+    }
+    if P == P2 {
+        match tp {
+            SddPtr::BDD(_) => st.bump("sddcorr_target_binary_node_regular"),
+            SddPtr::ComplBDD(_) => st.bump("sddcorr_target_binary_node_complemented"),
+            SddPtr::Reg(_) => st.bump("sddcorr_target_general_node_regular"),
+            SddPtr::Compl(_) => st.bump("sddcorr_target_general_node_complemented"),
+            _ => st.bump("sddcorr_target_terminal_or_literal"),
+        }
+    }
+    (sh, sn, sc, sp)
+}
+
 pub fn run(case: &str, st: &mut Stats) -> Outcome {
     let prog = parse(case);
     let nv = prog.nvars;
@@ -536,6 +617,12 @@ pub fn run(case: &str, st: &mut Stats) -> Outcome {
             i += 2;
         }
     }
+    let sv: Option<VT> = if i < tail.len() && tail[i] == "SV" {
+        i += 1;
+        Some(vt_parse(tail, &mut i))
+    } else {
+        None
+    };
     let mut fails = vec![];
     let real = all_real_weights(nv);
     if real != cw {
@@ -716,8 +803,29 @@ pub fn run(case: &str, st: &mut Stats) -> Outcome {
             st.bump("semantic_topdown_compilations");
         }
     }
-    rsdd::verif::TABLE_CAPACITY.with(|c| c.set(None));
     line.push_str(&format!(" sem={sem}"));
+
+    // ---- SDD half of the correspondence: the case's explicit vtrees, one builder per prime
+    {
+        let mut vts: Vec<(&str, &VT)> = vec![("VT", &vt)];
+        if let Some(v2) = &sv {
+            vts.push(("SV", v2));
+        }
+        let (mut sh, mut sn, mut sc, mut sp) = (vec![], vec![], vec![], vec![]);
+        let j = |v: &Vec<u128>| v.iter().map(|x| x.to_string()).collect::<Vec<_>>().join(",");
+        for (name, v) in vts {
+            let r0 = sdd_corr::<P0>(name, v, &prog, &queries, split, prefix, target, neg, &spec, &mut cx, st);
+            let r1 = sdd_corr::<P1>(name, v, &prog, &queries, split, prefix, target, neg, &spec, &mut cx, st);
+            let r2 = sdd_corr::<P2>(name, v, &prog, &queries, split, prefix, target, neg, &spec, &mut cx, st);
+            sh.push(format!("{},{},{}", r0.0, r1.0, r2.0));
+            sn.push(format!("{},{},{}", r0.1, r1.1, r2.1));
+            sc.push(format!("{};{};{}", j(&r0.2), j(&r1.2), j(&r2.2)));
+            sp.push(j(&r2.3));
+            st.bump("sddcorr_vtrees");
+        }
+        line.push_str(&format!(" sh={} sn={} sc={} sp={}", sh.join("|"), sn.join("|"), sc.join("|"), sp.join("|")));
+    }
+    rsdd::verif::TABLE_CAPACITY.with(|c| c.set(None));
 
     st.bump(if is_cnf { "kind_cnf" } else { "kind_program" });
     st.bump(&format!("nvars={nv}"));
